@@ -184,6 +184,7 @@ class C19(Prop):
             call = dict(kw)
             if case["dump"]:
                 call.update(dump=True, dump_path=target)
+            ps_before = json.dumps(ps, sort_keys=True)
             try:
                 if ps is None:
                     got = ("ok", simple_ddl_parser.parse_from_file(path, encoding=enc, **call))
@@ -192,6 +193,8 @@ class C19(Prop):
             except Exception as e:
                 got = ("exc", type(e).__name__, str(e)[:300])
             out.parses += 1
+            if json.dumps(ps, sort_keys=True) != ps_before:
+                out.fail("arguments-modified", "parser_settings changed from %s to %r" % (ps_before, ps))
             out.label("api", "enc:" + enc, "dump=%s" % case["dump"], "target:" + tkind)
             n_ent = len(ref[1]) if ref[0] == "ok" and isinstance(ref[1], (list, dict)) else 0
             out.nontrivial = (enc not in ("utf-8",) or case["fname"].count(".") != 1 or (case["dump"] and tkind in ("missing", "nested", "relative"))) and n_ent >= 2
